@@ -10,7 +10,7 @@ from multiprocessing import Pool
 from harness import core, gen
 from harness.drivers.c09 import pack
 
-KINDS = ["CSBK/pre", "CSBK/other", "DH/C", "DH/U", "DH/R", "DH/S", "DH/T", "VLC", "TLC", "PI",
+KINDS = ["CSBK/pre", "CSBK/other", "DH/C", "DH/U", "DH/R", "DH/S", "DH/T", "VLC", "TLC", "VLC/gps", "TLC/gps", "VLC/ta", "TLC/ta", "PI",
          "R12/u", "R12/c", "R12/ul", "R12/cl", "R34/u", "R34/c", "R34/ul", "R34/cl", "R1/u", "R1/c", "R1/ul", "R1/cl"]
 
 
@@ -29,6 +29,8 @@ def make_pdu(rng, kind, fill=None):
     if fam == "DH":
         return gen.data_header(rng, sub, btf=rng.randrange(0, 64 if sub == "S" else 128), a=sub != "R" and bool(rng.getrandbits(1)),
                                llid_source=rng.randrange(1 << 24), pad=rng.randrange(32) if sub in "CU" else 0), DT.DataHeader, None
+    if fam in ("VLC", "TLC") and sub:
+        return gen.full_lc_other(rng, sub), (DT.VoiceLCHeader if fam == "VLC" else DT.TerminatorWithLC), None
     if fam == "VLC":
         return gen.full_lc_voice(rng, rng.randrange(1 << 24), group=bool(rng.getrandbits(1))), DT.VoiceLCHeader, None
     if fam == "TLC":
@@ -48,7 +50,7 @@ def make_pdu(rng, kind, fill=None):
 
 
 def data_work(args):
-    seed, kinds, n = args
+    seed, kinds, n, layout_cases = args
     import random
     core.setup_repo_path()
     from harness.catalogue import struct as _struct
@@ -64,15 +66,25 @@ def data_work(args):
     out = []
     # kinds interleaved in one process (what one kind leaves behind must not show in the next); the first two rounds
     # carry all-zero and all-one payload octets, so that bursts of different coding families share their information bits
-    for k in range(n):
-        for kind in kinds:
+    ad = None
+    todo = [(k, kind, None) for k in range(n) for kind in kinds] + [(9, "L:" + name, vals) for name, vals in layout_cases]
+    for k, kind, vals in todo:
+        if True:
             seq = len(out)                      # colour codes and data SYNC patterns rotate over everything this process builds
             cc = seq % 16 if seq < 64 else rng.randrange(16)
             sync = gen.DATA_SYNCS[(seq // 3) % 4 if seq < 200 else rng.randrange(4)]
             rec = {"kind": kind, "cc": cc, "sync": sync, "dt": "", "dtv": 0, "err": "", "nbytes": 0, "bytes": [0] * 17, "payload": [0],
                    "pdt": "", "pcc": -1, "fields_equal": False, "bytes2": [0]}
             try:
-                pdu, dt, typ = make_pdu(rng, kind, fill={0: 0, 1: 255}.get(k))
+                if vals is None:
+                    pdu, dt, typ = make_pdu(rng, kind, fill={0: 0, 1: 255}.get(k))
+                else:
+                    # spec -> code: a PDU of this layout of spec/PDULayouts.tla with in-range values, built by the C03 adapter
+                    from harness.pdu_adapters import Adapter
+                    from okdmr.dmrlib.etsi.layer2.elements.data_types import DataTypes as DT
+                    ad = ad or Adapter()
+                    pdu, typ = ad.build(kind[2:], vals), None
+                    dt = {"CSBK": DT.CSBK, "DataHeader": DT.DataHeader}.get(kind[2:].split("/")[0]) or [DT.VoiceLCHeader, DT.TerminatorWithLC][seq % 2]
                 rec["dt"], rec["dtv"] = dt.name, dt.value
                 rec["payload"] = pack(pdu.as_bits())
                 raw = gen.assemble_data_burst(pdu, dt, cc, sync)
@@ -178,7 +190,7 @@ def table_rows(rng):
 
 
 def run(ctx):
-    ctx.rule = ("22 payload kinds (CSBK, five data header formats, voice LC header, terminator, PI header, 12 rate-block variants) x 16 colour "
+    ctx.rule = ("26 payload kinds (CSBK, five data header formats, voice LC header and terminator with voice-user / GPS / talker-alias link controls, PI header, 12 rate-block variants) x 16 colour "
                 "codes x 4 data sync patterns + random combinations are assembled like TransmissionGenerator does, serialised, parsed, "
                 "re-serialised; voice bursts around the 4 voice syncs and around EMB for all (colour, PI, LCSS) with random 32 embedded bits; "
                 "33 classification rows (centre x burst type); TLC judges all. distinct = distinct bursts.")
@@ -207,11 +219,34 @@ def run(ctx):
         raise core.MachineryError(f"too few near-sync embedded-signalling cases enumerated ({len(near)})")
     ctx.note("near_sync_emb_cases", len(near))
     ctx.note("near_sync_min_distance", min(v["dist"] for v in near))
+    # every CSBK opcode, data header format and full link control of spec/PDULayouts.tla (the layouts C03 verifies), with random
+    # in-range values, goes through burst assembly too: "all supported PDU kinds x all in-range field values"
+    from harness.pdu_adapters import Adapter
+    res0 = core.run_tlc(ctx, "MC_PDUExport", "MC_PDUExport.cfg", workers=1, timeout=300)
+    lay = core.parse_printed_json(res0, tag="LAYOUTS")
+    if not lay:
+        raise core.MachineryError("layout export failed")
+    layouts = lay[0]["all"]
+    domains = Adapter().domains(layouts)
+    lnames = sorted(n_ for n_ in layouts if n_.split("/")[0] in ("CSBK", "DataHeader", "FullLC96"))
+    if len(lnames) < 15:
+        raise core.MachineryError(f"too few burst-borne layouts exported: {lnames}")
+    lcases = []
+    for n_ in lnames:
+        for _ in range(8 if ctx.quick else 300):
+            vals = {}
+            for d in layouts[n_]:
+                if d["k"] == "u":
+                    dom = domains.get(f"{n_}/{d['f']}")
+                    vals[d["f"]] = rng.choice(dom) if dom else rng.getrandbits(d["w"])
+            lcases.append((n_, vals))
+    rng.shuffle(lcases)
+    ctx.note("layout_driven_bursts", {"layouts": len(lnames), "cases": len(lcases)})
     per = 70 if ctx.quick else 2500
     nv = 1200 if ctx.quick else 60000
     with Pool(core.NCPU) as pool:
         nw = 8
-        parts = pool.map(data_work, [(ctx.seed * 7 + i, KINDS[i % len(KINDS):] + KINDS[:i % len(KINDS)], (per + nw - 1) // nw + 2) for i in range(nw)])
+        parts = pool.map(data_work, [(ctx.seed * 7 + i, KINDS[i % len(KINDS):] + KINDS[:i % len(KINDS)], (per + nw - 1) // nw + 2, lcases[i::nw]) for i in range(nw)])
         vparts = pool.map(voice_work, [(ctx.seed * 11 + i, nv // 16, near if i == 0 else []) for i in range(16)])
     data = sum(parts, [])
     voice = sum(vparts, [])
